@@ -7,6 +7,7 @@ import (
 	"go/ast"
 	"go/token"
 	"go/types"
+	"golang.org/x/tools/go/ssa"
 	"sort"
 	"strings"
 
@@ -284,12 +285,46 @@ var ruleA3 = &Rule{
 			return true
 		})
 		name := fi.Name()
-		ok1 := parseCall != nil && pre != nil && post != nil
-		if ok1 {
-			succ := g.SuccessBlock(parseCall)
-			// the range expression of the PostRequest loop is evaluated in a block dominated by succ
-			pb, _ := g.BlockOf(post.X)
-			ok1 = succ != nil && pb != nil && g.Dominates(succ, pb) && pre.End() < parseCall.Pos()
+		_, _, _, _ = g, pre, post, parseCall
+		// on SSA: the PostRequest list is read only where the parse step's error is known to be nil; the PreRequest list is read
+		// before the parse step (the loops themselves may live in a helper that receives the list)
+		ok1 := false
+		if sf := c.SSAFunc("writer/controller", "(*PusherCtx).Do"); sf != nil {
+			var parse *ssa.Call
+			var preLoads, postLoads []ssa.Instruction
+			for _, b := range sf.Blocks {
+				for _, ins := range b.Instrs {
+					switch x := ins.(type) {
+					case *ssa.Call:
+						if sc := x.Common().StaticCallee(); sc != nil && sc.Name() == "DoParse" {
+							parse = x
+						}
+					case *ssa.UnOp:
+						if fa, ok := x.X.(*ssa.FieldAddr); ok && x.Op == token.MUL {
+							switch fieldNameOf(fa.X.Type(), fa.Field) {
+							case "PreRequest":
+								preLoads = append(preLoads, x)
+							case "PostRequest":
+								postLoads = append(postLoads, x)
+							}
+						}
+					}
+				}
+			}
+			if parse != nil && len(preLoads) > 0 && len(postLoads) > 0 {
+				ns := errNilSucc(parse)
+				ok1 = ns != nil && len(ns.Preds) == 1
+				for _, l := range postLoads {
+					if ns == nil || !(ns == l.Block() || ns.Dominates(l.Block())) {
+						ok1 = false
+					}
+				}
+				for _, l := range preLoads {
+					if !before(l, parse) {
+						ok1 = false
+					}
+				}
+			}
 		}
 		st, msg := OK, ""
 		if !ok1 {
